@@ -12,6 +12,7 @@
                 [29;g]          the same, LoadBlockLastSequence fails
                 [3;g;ok]        PostData of g answered
                 [26;g]          g, held after "status := notRunning", goes on to delete(tasks)
+                [32;g]          g has passed delete(tasks) and is held in front of its record store
                 [23;g]          g goes on to store the status notActive
                 [31]            Push.Close called
                 [30;g]          g took closechan and returned
@@ -60,7 +61,7 @@ Definition pc_tag (y : sys) (g : Z) : Z :=
   end.
 
 Definition do1 (c : cfg) (st : store) (yo : sys * list (list Z)) (e : yev) : sys * list (list Z) :=
-  let (y', os) := ystep false c st (fst yo) e in (y', snd yo ++ map enc_yout os).
+  let (y', os) := ystep code_fx c st (fst yo) e in (y', snd yo ++ map enc_yout os).
 
 Definition do_evs (c : cfg) (st : store) (r : rst) (y : sys) (es : list yev) (extra : list (list Z)) : rst :=
   let (y', os) := fold_left (do1 c st) es (y, []) in
@@ -75,7 +76,7 @@ Definition rstim (c : cfg) (st : store) (r : rst) (e : list Z) : rst :=
     match e, ry r with
     | [6; r0; hok; latest; p], None =>
         if (r0 >? 0) && (r0 <=? latest) && (hok =? 1)
-        then mkR (Some (init_sys0 false r0))
+        then mkR (Some (init_sys0 code_fx r0))
                  (if p =? 1 then [[4; r0]; [8]] else [[4; r0]; [8]; [5; 1]; [9; 0]]) (rgood r)
         else rbad r
     | [25; r0; hok], Some y =>
@@ -93,21 +94,25 @@ Definition rstim (c : cfg) (st : store) (r : rst) (e : list Z) : rst :=
         if pc_tag y g =? 3
         then do_evs c st r y [if okf =? 1 then VPostOk (Z.to_nat g) else VPostFail (Z.to_nat g)] []
         else rbad r
-    | [24; g], Some y => if pc_tag y g =? 4 then r else rbad r
+    | [24; g], Some y => if pc_tag y g =? (if code_fx then 5 else 4) then r else rbad r
     | [26; g], Some y =>
-        if pc_tag y g =? 4 then do_evs c st r y [VDel (Z.to_nat g)] [] else rbad r
-    | [23; g], Some y =>
-        if pc_tag y g =? 4 then do_evs c st r y [VDel (Z.to_nat g); VDeact (Z.to_nat g)] []
-        else if pc_tag y g =? 5 then do_evs c st r y [VDeact (Z.to_nat g)] []
+        if pc_tag y g =? 4 then do_evs c st r y [VDel (Z.to_nat g)] []
+        else if code_fx && (pc_tag y g =? 5) then r   (* repaired code: the entry is already gone at the log call *)
         else rbad r
+    | [32; g], Some y =>
+        if pc_tag y g =? 4 then do_evs c st r y [VDel (Z.to_nat g)] []
+        else if pc_tag y g =? 5 then r
+        else rbad r
+    | [23; g], Some y =>
+        if pc_tag y g =? 5 then do_evs c st r y [VDeact (Z.to_nat g)] [] else rbad r
     | [31], Some y => do_evs c st r y [VClose] []
     | [30; g], Some y =>
-        let y' := fst (ystep false c st y (VExit (Z.to_nat g))) in
+        let y' := fst (ystep code_fx c st y (VExit (Z.to_nat g))) in
         if (pc_tag y g =? 2) && (pc_tag y' g =? 6) then mkR (Some y') [] (rgood r) else rbad r
     | [11; ret], Some y =>
         if ret =? b2zr (all_done y) then r else rbad r
     | [28; p], Some y =>
-        let y' := fst (ystep false c st y VClose) in
+        let y' := fst (ystep code_fx c st y VClose) in
         if p =? b2zr (y_panic y') then mkR (Some y') [] (rgood r) else rbad r
     | [14; ex; sts; lastseq; status], Some y =>
         let ok :=
